@@ -9,7 +9,6 @@ import yaml
 
 from sigma.backends.test import TextQueryTestBackend
 from sigma.collection import SigmaCollection
-from sigma.conditions import _parse_condition_string
 from sigma.exceptions import SigmaError
 from sigma.filters import SigmaFilter
 from sigma.modifiers import SigmaModifier
@@ -70,7 +69,45 @@ for _name, _mod in sorted(sys.modules.items()):
         elif hasattr(_v, "cache_clear") and hasattr(_v, "cache_info") and not any(o is _v for o in _LRU):
             _LRU.append(_v)
 
+# class-level mutable objects (dict / list / set attributes) of every class defined in the sigma.* modules
+_CLASS_OBJS = []
+_seen_cls = set()
+for _name, _mod in sorted(sys.modules.items()):
+    if _mod is None or not _name.startswith("sigma.") or _name.startswith("sigma.data"):
+        continue
+    for _c in list(vars(_mod).values()):
+        if not isinstance(_c, type) or _c in _seen_cls or not getattr(_c, "__module__", "").startswith("sigma."):
+            continue
+        _seen_cls.add(_c)
+        import enum
+        if issubclass(_c, enum.Enum):
+            continue
+        for _attr, _v in list(vars(_c).items()):
+            if _attr.startswith("__") or _attr.startswith("_abc"):
+                continue
+            if isinstance(_v, (dict, list, set)) and not any(o is _v for _, _, o, _ in _CLASS_OBJS):
+                _CLASS_OBJS.append((_c, _attr, _v, copy.copy(_v)))
+
+def _restore(obj, content):
+    if isinstance(obj, dict):
+        obj.clear(); obj.update(content)
+    elif isinstance(obj, list):
+        obj[:] = content
+    else:
+        obj.clear(); obj.update(content)
+
+def parse_cache_info():
+    """hit / miss counters of the condition parse cache if it is the lru_cache the model describes, else None"""
+    import sigma.conditions as _c
+    f = getattr(_c, "_parse_condition_string", None)
+    if f is not None and hasattr(f, "cache_info"):
+        ci = f.cache_info()
+        return {"hits": ci.hits, "misses": ci.misses, "cached": ci.currsize}
+    return None
+
 def reset_module_state():
+    for _, _, obj, content in _CLASS_OBJS:
+        _restore(obj, content)
     for _, _, obj, content in _MODULE_OBJS:
         if isinstance(obj, dict):
             obj.clear(); obj.update(content)
@@ -107,12 +144,12 @@ def register_lcontains():
     return LContains
 
 def cached_hint_classes(extra):
-    """names of the modifier classes for which a type hint is cached now (dict of the shipped code; otherwise whatever
-    attribute a class grew since the setup)"""
+    """names of the modifier classes for which a type hint is cached now, if the cache is the class-level dict the model
+    describes; None when the implementation keeps that information elsewhere (then this internal is not compared)"""
     cache = getattr(SigmaModifier, "_type_hint_cache", None)
     if isinstance(cache, dict):
         return [k.__name__ for k in cache]
-    return sorted(c.__name__ for c in _MOD_CLASSES + extra if set(vars(c)) - _MOD_ATTRS.get(c, set(vars(c))))
+    return None
 
 FMT = ["default", "test", "state", "fields"]
 PRODUCT = [None, "windows", "linux"]
@@ -218,12 +255,14 @@ def make_pipeline(pd):
     key = json.dumps(pd, sort_keys=True)
     if key not in _PIPE_YAML:
         _PIPE_YAML[key] = pipeline_yaml(pd)
-    p = ProcessingPipeline.from_dict(_parsed(_PIPE_YAML[key]), allow_external_sources=allowed(pd_items(pd)))
-    if _has_nest(pd):
-        p._clear_pipeline()
-        p = ProcessingPipeline(items=p.items, postprocessing_items=[_post_obj(x) for x in pd["post"]], finalizers=p.finalizers,
-                               vars=p.vars, priority=p.priority, name=p.name)
-    return p
+    doc = _parsed(_PIPE_YAML[key])
+    if not _has_nest(pd):
+        return ProcessingPipeline.from_dict(doc, allow_external_sources=allowed(pd_items(pd)))
+    # `nest` postprocessing items exist through the Python API only: all members are created unbound and handed to the constructor
+    from sigma.processing.pipeline import ProcessingItem
+    items = [ProcessingItem.from_dict(d, allow_external_sources=allowed(pd_items(pd))) for d in doc.get("transformations", [])]
+    return ProcessingPipeline(items=items, postprocessing_items=[_post_obj(x) for x in pd["post"]], vars=doc.get("vars", {}),
+                              priority=doc.get("priority", 0), name=doc.get("name"))
 
 TEMPLATE_ATTRS = ["eq_expression", "re_expression", "cidr_expression", "startswith_expression",
                   "case_sensitive_startswith_expression", "endswith_expression",
@@ -262,7 +301,18 @@ def class_dicts(classes):
                 if name in ("output_format_processing_pipeline", "__dict__", "__annotations__", "__abstractmethods__", "_abc_impl"): continue
                 if isinstance(v, (dict, list, set)):
                     out[k.__name__ + "." + name] = v
-    return repr(_canon(out))
+    return {k: _canon(v) for k, v in out.items()}
+
+def class_dicts_ok(now, base):
+    """no entry that existed at setup was changed or removed (a class-level memo may grow: that is information)"""
+    for name, b in base.items():
+        n = now.get(name)
+        if n is None: return False
+        if isinstance(b, list) and b and isinstance(b[0], tuple) and len(b[0]) == 2:      # dict: (key, value) pairs
+            if not set(map(repr, b)) <= set(map(repr, n)): return False
+        elif isinstance(b, list):                                                        # list: prefix; set: subset
+            if n[:len(b)] != b and not set(map(repr, b)) <= set(map(repr, n)): return False
+    return True
 
 def _canon(v):
     if isinstance(v, dict): return sorted((repr(k), _canon(x)) for k, x in v.items())
@@ -345,7 +395,6 @@ def canon_fm(fm):
 
 class World:
     def __init__(self, case):
-        _parse_condition_string.cache_clear()
         reset_module_state()
         reset_modifier_state()
         self.lcontains = register_lcontains()
@@ -368,20 +417,23 @@ class World:
         return SigmaRule.from_dict(rule_doc(r, self.n))
 
     def internals(self):
-        ci = _parse_condition_string.cache_info()
+        ci = parse_cache_info()
         vc = []
         # vars of the pipeline definitions' own objects must never change (only the merged copy is updated)
         src_vars_ok = (all(_plain(p.vars) == _plain(v) for p, v in self.src_vars)
                        # ... nor the configuration of any transformation object (set_field list, mappings, values ...)
                        and _plain(item_configs(self.pipes)) == self.cfg0
                        # ... nor any class-level dict / list of the backend classes (state_defaults, formats, ...)
-                       and class_dicts(self.classes) == self.cls0)
+                       and class_dicts_ok(class_dicts(self.classes), self.cls0))
         for p in self.users:       # file_placeholders objects of the user pipeline objects, in order
             for it in p.items:
                 if isinstance(it.transformation, ExternalSourceBaseTransformation):
+                    if vc is None or not hasattr(it.transformation, "_values_cache"):
+                        vc = None       # the value cache is kept elsewhere: not observed
+                        continue
                     c = it.transformation._values_cache
                     vc.append(None if c is None else [str(x) for x in c])
-        return {"hits": ci.hits, "misses": ci.misses, "cached": ci.currsize, "vc": vc, "grown": module_growth(),
+        return {"cache": ci, "vc": vc, "grown": module_growth(),
                 "hints": cached_hint_classes([self.lcontains]),
                 "tpl_ok": src_vars_ok and all(getattr(c, a) == o[a] for c, o in zip(self.classes, self.orig) for a in TEMPLATE_ATTRS)
                           # set on the class by TextQueryBackend.__new__: constant once an instance exists
